@@ -11,7 +11,7 @@ from . import common
 from .common import Corr, f2hex, hex2f, frac2s, flist, parse_list
 
 ID = "C05"
-LEAN_MODULES = ["TempestVerif.Props.C05", "TempestVerif.Props.C05Warmup"]
+LEAN_MODULES = ["TempestVerif.Props.C05", "TempestVerif.Props.C05Warmup", "TempestVerif.Props.C05Pipeline"]
 RULE = ("(i) decision logic: a REAL Reweighter on a real StateManager whose _compute_metric_and_weights is replaced on the instance by a "
         "generated piecewise-constant table over beta (0..6 knots; ESS/metric entries placed around the target: decreasing, arbitrary/"
         "non-monotone, plateaus exactly at target), both modes, prev in {0, knots, grid points, 1}; regime Q: dyadic betas/values/"
@@ -21,16 +21,29 @@ RULE = ("(i) decision logic: a REAL Reweighter on a real StateManager whose _com
         "exact SEQUENCE of oracle calls. Non-trivial = at least one loop step of _find_beta_upper_limit/_find_beta_bisection or the "
         "first-iteration branch. (ii) the oracle: real _compute_metric_and_weights on generated histories (T in 1..8, n_t in 4..40, "
         "d in 1..3) vs an independent recomputation of the statement's formula, tolerance 1e-9 relative; non-trivial = T>=2. "
-        "(iii) constants read from tempest.config. (iv) short real Sampler runs (both modes): every oracle call of every iteration is "
+        "(iii) constants read from tempest.config (and regenerated into Gen/Constants.lean by translator G1, which discharges the "
+        "tolerance hypothesis of the fuel theorems). (iv) short real Sampler runs (both modes): every oracle call of every iteration is "
         "recorded and replayed as a table into the Float model, which must reproduce beta, the call sequence, the weights' temperature "
-        "and the Z argument bit-for-bit; non-trivial = the iteration made >= 1 loop step.")
+        "and the Z argument bit-for-bit; non-trivial = the iteration made >= 1 loop step. (v) DIRECT calls of _find_beta_bisection "
+        "(both update directions — the ESS-mode direction is dead code under run() — arbitrary brackets incl. bmin == bmax, inverted, "
+        "midpoint exactly 1.0) and of _find_beta_upper_limit on the same tables, regimes Q and F; non-trivial = at least one halving. "
+        "(vi) dep:pipeline-trace-replay: real ESS-mode Sampler runs (4 kernel x resampler combinations, d in 1..3, n in {8,16,24}) with "
+        "all randomness observed, replayed by the Lean pipeline model (concrete oracle = C04 weights -> exp(logw-max) -> C20 ESS); "
+        "compared here: beta, ESS, logz-after-reweighting per iteration (1e-9 / 1e-7), the size of every warm-up batch and beta_k = 0 for "
+        "k < ess_ratio (k = ess_ratio is an exact ESS = target tie, decided by the last ulp in floating point); non-trivial = the run left beta = 0.")
 MODELLED = ["numpy/IEEE: the model is executed at Float with the same operations in the same order (bit-exact regime); theorems are over exact reals",
-            "the weights array is abstract in the model (a tag naming the beta it was computed for); its formula is C04's, ESS's is C20's",
-            "np.isfinite is an uninterpreted predicate in the proofs (Float.isFinite when executed)",
-            "the progress bar and the iter counter are not modelled"]
-ASSUMPTIONS = ["between two calls of Reweighter.run nobody but _finalize_iteration writes state['beta'] (checked on the real runs of suite iv)",
-               "history is non-empty after the first commit (commit_current_to_history appends beta whenever it is not None)",
-               "the oracle is a function of beta within one call of run() (the pool does not change during reweighting)"]
+            "Props/C05.lean: _compute_metric_and_weights, compute_logw_and_logz and np.isfinite are PARAMETERS (every function M, Z, fin); "
+            "the weights array is a tag naming the beta it was computed for. Props/C05Pipeline.lean + C05Warmup.lean: ESS mode with the concrete "
+            "C04/C20 oracle of Model.Pipeline (exp/log = Real.exp/Real.log), randomness and user functions on a universally quantified tape",
+            "volume_variation (matrix algebra) is a parameter everywhere (third component of M); the trainer is opaque (its effect is on the tape)",
+            "NaN / +-inf oracle values are covered by the Float correspondence only, not by the theorems",
+            "the literal 1e10 (non-finite metric replacement) is hard-coded in the model; the progress bar and the iter counter are not modelled"]
+ASSUMPTIONS = ["H_fn: within one call of run() the oracle is a function of beta (the pool does not change during reweighting) — checked on the real "
+               "runs of suite iv, where a beta answered twice differently is a disagreement",
+               "volume-variation mode only: between two calls of Reweighter.run nobody but _finalize_iteration writes state['beta'], and the history is "
+               "non-empty after the first commit (both PROVED for the ESS-mode pipeline model; checked on the real runs of suite iv)",
+               "C05_pipeline_warmup: every warm-up iteration draws n_particles prior samples (checked on the real runs of suite vi)",
+               "C05_dyn_ess_antitone / C05_upper_antitone only: the pool ESS is non-increasing in beta on [beta_prev, 1] (not assumed by any other theorem)"]
 
 FUEL = 64
 TOL = 1e-9
@@ -651,9 +664,261 @@ def _corr_runs(tier, drv):
     return c
 
 
+# ================================================================== (v) direct calls of the two search functions
+def _gen_direct(rng, regime):
+    """a table plus a DIRECT call of _find_beta_bisection (both update directions, arbitrary brackets — also the ones run() never
+       produces: ESS-mode bisection on a finite oracle, bmin == bmax, brackets whose midpoint is exactly 1.0) or of
+       _find_beta_upper_limit"""
+    cs = _gen_Q(rng) if regime == "Q" else _gen_F(rng, allow_nonfinite=rng.random() < 0.5)
+    enc = frac2s if regime == "Q" else f2hex
+    val = (lambda x: Fraction(x)) if regime == "Q" else hex2f
+    kind = "up" if rng.random() < 0.3 else "bis"
+    cs["kind"] = kind
+    n = int(cs["n"])
+    target_ess = val(cs["ratio"]) * n
+    if kind == "up":
+        cs["target"] = enc(target_ess)
+        return cs
+    dyn = rng.random() < 0.5
+    cs["dyn"] = 1 if dyn else 0
+    if dyn:
+        if cs["vv"] is None:
+            cs["vv"] = enc(Fraction(rng.randint(1, 16), 16)) if regime == "Q" else enc(rng.choice([0.5, 0.1, 0.05, 1.0]))
+        cs["target"] = cs["vv"]
+    else:
+        cs["target"] = enc(target_ess)
+    knots = [val(k) for k in cs["knots"]]
+
+    def pt():
+        j = rng.random()
+        if regime == "Q":
+            g = 2 ** rng.choice([2, 3, 4, 6])
+            return rng.choice(knots) if (j < 0.3 and knots) else Fraction(rng.randint(0, g), g)
+        return rng.choice(knots) if (j < 0.3 and knots) else rng.choice([0.0, 1.0, rng.random(), rng.randint(0, 16) / 16])
+    j = rng.random()
+    if j < 0.06:
+        a = b = pt()
+    elif j < 0.12:                      # midpoint exactly 1.0 (the `beta == 1.0` exit)
+        h = pt()
+        a, b = 1 - h, 1 + h
+    elif j < 0.16:                      # inverted bracket: beta_converged at once
+        a, b = sorted([pt(), pt()], reverse=True)
+    else:
+        a, b = sorted([pt(), pt()])
+    cs["bmin"], cs["bmax"] = enc(a), enc(b)
+    return cs
+
+
+def _line_direct(cs):
+    tab = f"knots={flist(cs['knots'], str)} ess={flist(cs['ess'], str)} met={flist(cs['met'], str)}"
+    if cs["kind"] == "up":
+        return f"up.{cs['regime']} prev={cs['prev']} target={cs['target']} tol={cs['tolB']} fuel={FUEL} {tab}"
+    return (f"bis.{cs['regime']} dyn={cs['dyn']} bmin={cs['bmin']} bmax={cs['bmax']} target={cs['target']} tolE={cs['tolE']} "
+            f"tolB={cs['tolB']} fuel={FUEL} {tab}")
+
+
+def _run_direct(cs):
+    from tempest.state_manager import StateManager
+    from tempest.steps.reweight import Reweighter
+    rg = cs["regime"]
+    target = _dec(rg, cs["target"])
+    dyn = cs["kind"] == "bis" and cs["dyn"] == 1
+    rw = Reweighter(StateManager(n_dim=1), None, int(cs["n"]), _dec(rg, cs["ratio"]), target if dyn else None,
+                    ESS_TOLERANCE=_dec(rg, cs["tolE"]), BETA_TOLERANCE=_dec(rg, cs["tolB"]))
+    orc = TableOracle([_dec(rg, k) for k in cs["knots"]], [_dec(rg, e) for e in cs["ess"]], [_dec(rg, m) for m in cs["met"]])
+    rw._compute_metric_and_weights = orc
+    try:
+        with warnings.catch_warnings():
+            warnings.simplefilter("ignore")
+            if cs["kind"] == "up":
+                beta = rw._find_beta_upper_limit(_dec(rg, cs["prev"]), target)
+                return {"beta": _canon(beta), "calls": [_canon(b) for b in orc.calls]}
+            if dyn:       # the closures `run` builds (reweight.py:310-312 and :378-382)
+                def fn(beta):
+                    w, e, m = rw._compute_metric_and_weights(beta)
+                    return m, (w, e)
+            else:
+                def fn(beta):
+                    w, e, _ = rw._compute_metric_and_weights(beta)
+                    return e, (w, e)
+            beta, (w, ess) = rw._find_beta_bisection(_dec(rg, cs["bmin"]), _dec(rg, cs["bmax"]), target, fn)
+    except Exception as e:  # noqa
+        return {"error": f"{type(e).__name__}: {e}", "calls": [_canon(b) for b in orc.calls]}
+    j = int(w[1])
+    tag = _canon(orc.calls[j - 1]) if 1 <= j <= len(orc.calls) else f"?{w.tolist()}"
+    return {"beta": _canon(beta), "wtag": tag, "ess": _canon(ess), "calls": [_canon(b) for b in orc.calls]}
+
+
+def _parse_direct(cs, ans):
+    t = ans.split(" ")
+    cv = lambda x: _canon_tok(cs["regime"], x)  # noqa
+    if cs["kind"] == "up":
+        if len(t) != 5:
+            return None
+        return {"beta": cv(t[0]), "branch": t[1], "steps": int(t[3]), "calls": [cv(x) for x in parse_list(t[4], str)]}
+    if len(t) != 6:
+        return None
+    return {"beta": cv(t[0]), "branch": t[1], "wtag": cv(t[2]), "ess": cv(t[3]), "steps": int(t[4]),
+            "calls": [cv(x) for x in parse_list(t[5], str)]}
+
+
+def _corr_direct(tier, drv, regime):
+    n = 700 if tier == "quick" else 12000
+    rng = common.rng_for("C05.direct." + regime)
+    c = Corr(f"direct-{regime}", {"Q": "exact-dyadic (Rat model)", "F": "bit-exact (Float model)"}[regime])
+    cases = [_gen_direct(rng, regime) for _ in range(n)]
+    lines = [_line_direct(cs) for cs in cases]
+    for cs, line, ans in zip(cases, lines, drv.batch(lines)):
+        impl = _run_direct(cs)
+        model = _parse_direct(cs, ans)
+        if model is None:
+            c.case(line, False)
+            c.disagree(input=line, impl=impl, model=ans, direct=cs)
+            continue
+        c.case(line, model["steps"] >= 1)
+        c.count(cs["kind"] + ":" + model["branch"])
+        if cs["kind"] == "bis":
+            c.count("bis_direction:" + ("dyn" if cs["dyn"] else "ess"))
+            if not cs["dyn"] and model["steps"] >= 1:
+                c.count("ess_mode_bisection_steps", model["steps"])
+        keys = ("beta", "calls") if cs["kind"] == "up" else ("beta", "wtag", "ess", "calls")
+        if "error" in impl or any(impl[k] != model[k] for k in keys):
+            c.disagree(input=line, impl=impl, model=model, direct=cs)
+        c.sample({"op": line, "impl": impl, "model": ans}, cap=2)
+    return c
+
+
+def oracle_direct(cs):
+    """what C05 needs of the two search functions, on the real code: the bisection returns a point of its bracket together with
+       the weights / ESS computed AT that point; the upper limit lies in [prev, 1] and has ESS >= target if it moved"""
+    rg = cs["regime"]
+    if any(not math.isfinite(_dec(rg, x)) for x in cs["ess"] + cs["met"]):
+        return None
+    r = _run_direct(cs)
+    if "error" in r:
+        return f"{cs['kind']} raised {r['error']} after {len(r['calls'])} oracle calls"
+    beta = hex2f(r["beta"]) if r["beta"] != "nan" else math.nan
+    knots = [_dec(rg, k) for k in cs["knots"]]
+    esst = [_dec(rg, e) for e in cs["ess"]]
+    essb = esst[sum(1 for k in knots if k <= beta)] if beta == beta else math.nan
+    if cs["kind"] == "up":
+        prev, target = _dec(rg, cs["prev"]), _dec(rg, cs["target"])
+        if not (prev <= beta <= 1.0):
+            return f"_find_beta_upper_limit({prev!r}) = {beta!r} outside [prev, 1]"
+        if beta != prev and not (essb >= target):
+            return f"_find_beta_upper_limit({prev!r}) = {beta!r} where ESS = {essb!r} < target {target!r}"
+        return None
+    a, b = _dec(rg, cs["bmin"]), _dec(rg, cs["bmax"])
+    if not (min(a, b) <= beta <= max(a, b)):
+        return f"_find_beta_bisection({a!r}, {b!r}) returned {beta!r} outside its bracket"
+    if r["wtag"] != r["beta"] or r["ess"] != _canon(essb):
+        return f"_find_beta_bisection returned beta={beta!r} with weights/ESS computed at another temperature ({r['wtag']}, {r['ess']})"
+    return None
+
+
+# ================================================================== (vi) the concrete pipeline (tie of Props/C05Pipeline, C05Warmup)
+def _corr_pipeline(tier, drv):
+    """real Sampler runs (ESS mode) with all randomness observed, replayed by the Lean pipeline model whose metric oracle is the
+       concrete composition Model.Weights -> exp(logw - max) -> Model.Ess (harness/pipeline.py, the suite C01/C02/C10 own);
+       re-run here at small size because the C05Pipeline / C05Warmup theorems are stated about that model"""
+    from . import pipeline, c01
+    rng = common.rng_for("C05.pipeline")
+    c = Corr("dep:pipeline-trace-replay", "toleranced Float (decisions exact, near-ties counted)")
+    configs = [(k, r) for k in ("tpcn", "rwm") for r in ("syst", "mult")]
+    n_runs = 8 if tier == "quick" else 48
+    recs, lines = [], []
+    for i in range(n_runs):
+        kernel, resample = configs[i % 4]
+        d = rng.choice([1, 2, 3])
+        n = rng.choice([8, 16, 24])
+        prior, like = c01.make_target(rng, d, rng.random() < 0.3)
+        seed = rng.randrange(2 ** 31)
+        np.random.seed(seed)
+        cfg = {"kernel": kernel, "resample": resample, "d": d, "n": n, "seed": seed}
+        rec = pipeline.Recorder(kernel, resample, n, d, like, prior, ess_ratio=rng.choice([1.0, 1.5, 2.0, 3.0]))
+        rec.s._core._initialize_fresh()
+        rec.s._core.n_total = 3 * n
+        try:
+            k = 0
+            while rec.s._core._not_termination() and k < 14:
+                rec.iteration()
+                k += 1
+        except Exception as e:  # noqa
+            c.case(cfg, False)
+            c.disagree(input=cfg, impl=f"raised {type(e).__name__}: {e}", model="runs")
+            continue
+        recs.append((rec, cfg))
+        lines.append(rec.model_line())
+        betas = [it["beta"] for it in rec.impl]
+        c.case(cfg, any(b > 0 for b in betas))
+        c.count("iterations", len(betas))
+        c.count("warmup_iterations", sum(1 for b in betas if b == 0))
+        c.count("advances", sum(1 for a, b in zip(betas, betas[1:]) if b != a))
+    for (rec, cfg), line, ans in zip(recs, lines, drv.batch(lines)):
+        ratio = rec.s._core.config.ess_ratio
+        prob, compared, tie = _compare_schedule(rec, ans, pipeline.close, ratio)
+        if tie:
+            c.near_ties += 1
+        c.count("iterations_compared", compared)
+        # hypothesis of C05_pipeline_warmup(_count): every warm-up iteration commits n_particles prior draws
+        st = rec.s.state
+        for k in range(st.get_history_length()):
+            if float(st.get_history("beta", k)) == 0.0 and len(st.get_history("logl", k)) != cfg["n"] and not prob:
+                prob = f"warm-up batch {k} holds {len(st.get_history('logl', k))} particles, n_particles = {cfg['n']}"
+        # conclusion of C05_pipeline_warmup_count on the real run: beta_k = 0 for every k <= ess_ratio
+        # (k == ess_ratio is an exact tie ESS(0) = N = target over the reals; in floating point the ESS of N equal weights may
+        #  come out one ulp above N, so that boundary iteration is not asserted — rule 7)
+        for k, it in enumerate(rec.impl):
+            if k < ratio and it["beta"] != 0.0 and not prob:
+                prob = f"iteration {k} left beta = 0 although the pool ({k}*n) is smaller than ess_ratio*n (ess_ratio = {ratio})"
+        c.count("warmup_iterations_checked", sum(1 for k in range(len(rec.impl)) if k < ratio))
+        if compared < len(rec.impl) and not prob:
+            c.count("runs_truncated_at_a_resample_or_accept_difference")   # C06 / C03 territory (or a near tie there)
+        if prob:
+            c.disagree(input=cfg, impl=prob, model=ans[:300])
+        c.sample({"config": cfg, "betas": [round(it["beta"], 4) for it in rec.impl]}, cap=2)
+    return c
+
+
+def _compare_schedule(rec, answer, close, ratio):
+    """the reweighting part of the pipeline replay: beta, ESS, logz-after-reweighting of every iteration, up to the first
+       iteration whose resampled indices or accept masks differ (from there on model and code hold different pools; such a
+       difference is owned by C06 / C03 / C01, whose checks compare it)"""
+    if answer.startswith("error") or answer == "bad-op":
+        return f"model left its domain: {answer}", 0, False
+    its = answer.split("#")[0]
+    its = its.split("|") if its else []
+    k = 0
+    for k, (m, i) in enumerate(zip(its, rec.impl)):
+        beta, ess, zrw, _z, idx, masks, branch = m.split(";")
+        beta, ess, zrw = hex2f(beta), hex2f(ess), hex2f(zrw)
+        if not close(beta, i["beta"]):
+            if k == ratio and all(j["beta"] == 0.0 for j in rec.impl[:k]):
+                return None, k, True      # exact tie ESS(0) = N = target: `ess_prev <= target` decided by the last ulp of the ESS
+            return f"iteration {k + 1}: beta impl {i['beta']!r} model {beta!r} ({branch})", k, False
+        if not close(ess, i["ess"], 1e-7):
+            return f"iteration {k + 1}: ESS impl {i['ess']!r} model {ess!r}", k, False
+        if i["logz_rw"] is not None and not close(zrw, i["logz_rw"]):
+            return f"iteration {k + 1}: logz after reweighting impl {i['logz_rw']!r} model {zrw!r}", k, False
+        midx = [] if idx == "-" else [int(t) for t in idx.split(",")]
+        mm = [] if masks == "-" else [[ch == "1" for ch in s_] for s_ in masks.split("+")]
+        if midx != i["idx"] or mm != i["masks"]:
+            return None, k + 1, False
+    if len(its) != len(rec.impl):
+        return f"model ran {len(its)} iterations, implementation {len(rec.impl)}", min(len(its), len(rec.impl)), False
+    return None, len(its), False
+
+
+def translators():
+    from translate import g1_constants
+    return [g1_constants.generate()]
+
+
 def correspond(tier):
     drv = common.Driver()
-    out = [_corr_constants(), _corr_decision(tier, drv, "Q"), _corr_decision(tier, drv, "F"), _corr_oracle(tier), _corr_runs(tier, drv)]
+    out = [_corr_constants(), _corr_decision(tier, drv, "Q"), _corr_decision(tier, drv, "F"),
+           _corr_direct(tier, drv, "Q"), _corr_direct(tier, drv, "F"), _corr_oracle(tier), _corr_runs(tier, drv),
+           _corr_pipeline(tier, drv)]
     return out
 
 
@@ -820,6 +1085,10 @@ def search(tier, hints):
                 msg = oracle_table(h["case"])
                 if msg and add(_fail("table", msg, case=h["case"])):
                     return found
+            elif "direct" in h and isinstance(h["direct"], dict):
+                msg = oracle_direct(h["direct"])
+                if msg and add(_fail("direct", msg, direct=h["direct"])):
+                    return found
             elif "hist" in h:
                 hist, d = _hist_from_json(h["hist"])
                 for ratio, n in ((2.0, 16), (1.0, 8)):
@@ -872,6 +1141,8 @@ def replay(obj):
     kind = f.get("kind")
     if kind == "table":
         msg = oracle_table(f["case"])
+    elif kind == "direct":
+        msg = oracle_direct(f["direct"])
     elif kind == "history":
         hist, d = _hist_from_json(f["hist"])
         msg = oracle_history(hist, d, f.get("vv"), f["ratio"], f["n"])
